@@ -1,0 +1,375 @@
+/* This Source Code Form is subject to the terms of the Mozilla Public
+ * License, v. 2.0. If a copy of the MPL was not distributed with this
+ * file, You can obtain one at http://mozilla.org/MPL/2.0/. */
+
+//! Seams for deterministic simulation (cargo feature `abra_verif`, off by default).
+//!
+//! Nothing in here changes what the VM does unless a simulator installs a [`Controller`] or turns
+//! the quarantine on. With a controller installed, the pacing of the incremental collector
+//! (when a cycle starts, how many objects are marked / swept before an instruction) is decided
+//! by the controller instead of the allocation heuristic; the mark, barrier and sweep code that
+//! runs is the production code. With the quarantine on, reclaimed objects are recorded instead of
+//! being returned to the allocator and every later access to one of them is reported.
+//!
+//! All state is thread-local: a simulation cell runs on one OS thread.
+
+use crate::vm::Instr;
+use std::cell::{Cell, RefCell};
+use utils::hash::HashMap;
+
+#[derive(Clone, Copy, Debug, PartialEq, Eq, Hash)]
+pub enum GcPhase {
+    Idle,
+    Marking,
+    Sweeping,
+}
+
+/// What the controller can see when it is asked for a collector action, i.e. immediately before
+/// one instruction of one green thread.
+#[derive(Clone, Copy, Debug)]
+pub struct GcCtx {
+    pub thread: u64,
+    pub is_main: bool,
+    pub phase: GcPhase,
+    pub pc: u32,
+    pub next_instr: Instr,
+    pub string_op_in_flight: bool,
+    pub heap_size: usize,
+    pub heap_objects: usize,
+    pub gray_len: usize,
+    pub stack_len: usize,
+}
+
+#[derive(Clone, Copy, Debug, PartialEq, Eq)]
+pub enum GcAction {
+    /// leave the decision to the production heuristic
+    Default,
+    /// `start`: begin a cycle if idle; then up to `mark` grey objects are processed while marking;
+    /// then up to `sweep` objects are swept while sweeping (`u32::MAX` = run the phase to its end).
+    /// All zero / false = the collector does nothing before this instruction.
+    Do { start: bool, mark: u32, sweep: u32 },
+}
+
+#[derive(Clone, Debug)]
+pub enum Event<'a> {
+    Step {
+        thread: u64,
+        is_main: bool,
+        pc: u32,
+        instr: Instr,
+        phase: GcPhase,
+        string_op_in_flight: bool,
+    },
+    Spawn {
+        parent: u64,
+        child: u64,
+        ncaptures: u16,
+    },
+    ThreadDropped {
+        thread: u64,
+        is_main: bool,
+        heap_objects: usize,
+    },
+    ChanNew {
+        thread: u64,
+        chan: u64,
+    },
+    ChanWrite {
+        thread: u64,
+        chan: u64,
+        digest: &'a str,
+    },
+    ChanRead {
+        thread: u64,
+        chan: u64,
+        digest: &'a str,
+    },
+    ChanReadBlocked {
+        thread: u64,
+        chan: u64,
+    },
+    HostPending {
+        thread: u64,
+        func: u16,
+    },
+    GcStart {
+        thread: u64,
+        string_op_in_flight: bool,
+    },
+    /// marking finished. `unmarked_reachable` is the number of objects an independent trace from
+    /// the roots finds that the collector did not mark (only counted when the self-check ran).
+    GcMarkDone {
+        thread: u64,
+        checked: bool,
+        unmarked_reachable: usize,
+    },
+    GcSweepDone {
+        thread: u64,
+        freed: u64,
+        live: usize,
+    },
+    /// a rare condition worth counting was reached
+    Probe {
+        thread: u64,
+        name: &'static str,
+    },
+}
+
+pub trait Controller {
+    fn gc_action(&mut self, ctx: &GcCtx) -> GcAction;
+    fn event(&mut self, ev: &Event);
+}
+
+#[derive(Clone, Copy, Debug)]
+pub struct Config {
+    /// reclaimed objects are poisoned instead of freed; accesses to them are reported
+    pub quarantine: bool,
+    /// run the collector self-checks at every n-th phase boundary (0 = never)
+    pub selfcheck_every: u32,
+}
+
+#[derive(Clone, Copy, Debug, Default)]
+pub struct ThreadCounters {
+    pub allocs: u64,
+    pub frees: u64,
+    pub cycles: u64,
+    pub freed_in_cycle: u64,
+}
+
+#[derive(Clone, Debug)]
+pub struct ThreadInfo {
+    pub thread: u64,
+    pub is_main: bool,
+    pub phase: GcPhase,
+    pub done: bool,
+    pub failed: bool,
+    pub pending_host_func: Option<u16>,
+    pub heap_size: usize,
+    pub heap_objects: usize,
+    pub stack_len: usize,
+    pub string_op_in_flight: bool,
+    pub counters: ThreadCounters,
+}
+
+#[derive(Clone, Copy, Debug)]
+pub struct ObjInfo {
+    pub ordinal: u64,
+    pub kind: &'static str,
+    pub owner: u64,
+    pub alloc_step: u64,
+}
+
+#[derive(Clone, Copy, Debug)]
+pub struct FreedInfo {
+    pub obj: ObjInfo,
+    pub free_step: u64,
+}
+
+/// marker at the start of every panic message raised by a hook (as opposed to by the VM)
+pub const VIOLATION_PREFIX: &str = "ABRA-VERIF-VIOLATION";
+
+thread_local! {
+    static CONTROLLER: RefCell<Option<Box<dyn Controller>>> = const { RefCell::new(None) };
+    static CONFIG: Cell<Config> = const { Cell::new(Config { quarantine: false, selfcheck_every: 0 }) };
+    static STEPS: Cell<u64> = const { Cell::new(0) };
+    static NEXT_OBJ: Cell<u64> = const { Cell::new(0) };
+    static NEXT_CHAN: Cell<u64> = const { Cell::new(0) };
+    static BOUNDARIES: Cell<u64> = const { Cell::new(0) };
+    static OBJS: RefCell<HashMap<usize, ObjInfo>> = RefCell::new(HashMap::default());
+    static FREED: RefCell<HashMap<usize, FreedInfo>> = RefCell::new(HashMap::default());
+    static CHANS: RefCell<HashMap<usize, u64>> = RefCell::new(HashMap::default());
+    static VIOLATIONS: RefCell<Vec<String>> = const { RefCell::new(Vec::new()) };
+}
+
+pub fn install(c: Box<dyn Controller>) {
+    CONTROLLER.with(|s| *s.borrow_mut() = Some(c));
+}
+
+pub fn uninstall() -> Option<Box<dyn Controller>> {
+    CONTROLLER.with(|s| s.borrow_mut().take())
+}
+
+pub fn set_config(c: Config) {
+    CONFIG.with(|s| s.set(c));
+}
+
+pub fn config() -> Config {
+    CONFIG.with(|s| s.get())
+}
+
+/// forget everything recorded so far (between two simulated runs in one process). The quarantine
+/// must have been released first (`vm::verif_release_quarantine`).
+pub fn reset() {
+    STEPS.with(|s| s.set(0));
+    NEXT_OBJ.with(|s| s.set(0));
+    NEXT_CHAN.with(|s| s.set(0));
+    BOUNDARIES.with(|s| s.set(0));
+    OBJS.with(|s| s.borrow_mut().clear());
+    CHANS.with(|s| s.borrow_mut().clear());
+    VIOLATIONS.with(|s| s.borrow_mut().clear());
+}
+
+pub fn steps() -> u64 {
+    STEPS.with(|s| s.get())
+}
+
+pub fn violations() -> Vec<String> {
+    VIOLATIONS.with(|s| s.borrow().clone())
+}
+
+pub fn quarantined() -> usize {
+    FREED.with(|s| s.borrow().len())
+}
+
+pub fn live_tracked_objects() -> usize {
+    OBJS.with(|s| s.borrow().len())
+}
+
+// ---- called from vm.rs -------------------------------------------------------------------------
+
+#[inline]
+pub(crate) fn quarantine_on() -> bool {
+    CONFIG.with(|s| s.get().quarantine)
+}
+
+pub(crate) fn selfcheck_due() -> bool {
+    let every = CONFIG.with(|s| s.get().selfcheck_every) as u64;
+    if every == 0 {
+        return false;
+    }
+    let n = BOUNDARIES.with(|s| {
+        let n = s.get();
+        s.set(n + 1);
+        n
+    });
+    n % every == 0
+}
+
+#[inline]
+pub(crate) fn ask(ctx: &GcCtx) -> GcAction {
+    CONTROLLER.with(|s| match s.borrow_mut().as_mut() {
+        Some(c) => c.gc_action(ctx),
+        None => GcAction::Default,
+    })
+}
+
+#[inline]
+pub(crate) fn has_controller() -> bool {
+    CONTROLLER.with(|s| s.borrow().is_some())
+}
+
+#[inline]
+pub(crate) fn emit(ev: Event) {
+    CONTROLLER.with(|s| {
+        if let Ok(mut guard) = s.try_borrow_mut()
+            && let Some(c) = guard.as_mut()
+        {
+            c.event(&ev);
+        }
+    });
+}
+
+#[inline]
+pub(crate) fn count_step() {
+    STEPS.with(|s| s.set(s.get() + 1));
+}
+
+pub(crate) fn note_alloc(addr: usize, kind: &'static str, owner: u64) {
+    let ordinal = NEXT_OBJ.with(|s| {
+        let n = s.get();
+        s.set(n + 1);
+        n
+    });
+    let info = ObjInfo {
+        ordinal,
+        kind,
+        owner,
+        alloc_step: steps(),
+    };
+    OBJS.with(|s| s.borrow_mut().insert(addr, info));
+}
+
+pub(crate) fn obj_info(addr: usize) -> Option<ObjInfo> {
+    OBJS.with(|s| s.borrow().get(&addr).copied())
+}
+
+/// called instead of freeing when the quarantine is on
+pub(crate) fn note_quarantined(addr: usize) {
+    let obj = OBJS
+        .with(|s| s.borrow_mut().remove(&addr))
+        .unwrap_or(ObjInfo {
+            ordinal: u64::MAX,
+            kind: "untracked",
+            owner: u64::MAX,
+            alloc_step: 0,
+        });
+    let info = FreedInfo {
+        obj,
+        free_step: steps(),
+    };
+    let previous = FREED.with(|s| s.borrow_mut().insert(addr, info));
+    if let Some(previous) = previous {
+        record_violation(format!(
+            "double-free object#{} kind={} owner=t{} first freed at step {} again at step {}",
+            previous.obj.ordinal,
+            previous.obj.kind,
+            previous.obj.owner,
+            previous.free_step,
+            steps()
+        ));
+    }
+}
+
+/// called when an object is really freed (quarantine off)
+pub(crate) fn note_freed(addr: usize) {
+    OBJS.with(|s| s.borrow_mut().remove(&addr));
+}
+
+pub(crate) fn freed_info(addr: usize) -> Option<FreedInfo> {
+    FREED.with(|s| s.borrow().get(&addr).copied())
+}
+
+pub(crate) fn take_quarantine() -> Vec<usize> {
+    FREED.with(|s| s.borrow_mut().drain().map(|(k, _)| k).collect())
+}
+
+pub(crate) fn record_violation(msg: String) {
+    VIOLATIONS.with(|s| s.borrow_mut().push(msg));
+}
+
+/// every dereference of a heap value goes through here
+#[inline]
+pub(crate) fn check_live(addr: usize, site: &'static str) {
+    if !quarantine_on() {
+        return;
+    }
+    if let Some(info) = freed_info(addr) {
+        let msg = format!(
+            "{VIOLATION_PREFIX} use-after-free site={site} object#{} kind={} owner=t{} allocated at step {} reclaimed at step {} accessed at step {}",
+            info.obj.ordinal,
+            info.obj.kind,
+            info.obj.owner,
+            info.obj.alloc_step,
+            info.free_step,
+            steps()
+        );
+        record_violation(msg.clone());
+        panic!("{msg}");
+    }
+}
+
+pub(crate) fn chan_ordinal(queue_addr: usize, fresh: bool) -> u64 {
+    CHANS.with(|s| {
+        let mut map = s.borrow_mut();
+        if !fresh && let Some(n) = map.get(&queue_addr) {
+            return *n;
+        }
+        let n = NEXT_CHAN.with(|c| {
+            let n = c.get();
+            c.set(n + 1);
+            n
+        });
+        map.insert(queue_addr, n);
+        n
+    })
+}
